@@ -66,6 +66,16 @@ Next == /\ steps < Depth
            \/ \E n \in 0..2 : Apply(n)
            \/ \E v \in V : SetV(v)
 Spec == Init /\ [][Next]_vars
+\* directed histories for a history with a gap: two files, apply, a file added out of order (or after), set to any version, apply / set again.
+\* Every behaviour of this shape is enumerated (hist is part of the state) and replayed on the CLI.
+GapNext == /\ steps < 6
+           /\ \/ (steps < 2 /\ \E v \in V : AddFile(v, FALSE))
+              \/ (steps = 2 /\ Apply(0))
+              \/ (steps = 3 /\ \E v \in V : AddFile(v, FALSE))
+              \/ (steps = 4 /\ \E v \in V : SetV(v))
+              \/ (steps = 5 /\ (Apply(0) \/ Apply(1)))
+GapSpec == Init /\ [][GapNext]_vars
+EmitGap == steps = 6 => PrintT(<<"VTRACE", ToJson(hist)>>)
 \* model-level agreement properties
 InJ(e) == \E k \in DOMAIN journal : journal[k] = e
 NeverReapplied == \A v \in V : revs[v].st = "exec" => InJ(<<v, 1>>) /\ InJ(<<v, 2>>)
